@@ -109,7 +109,8 @@ def absorb(res: core.Result, part: str, run_ref: str, out: Dict[str, Any], confi
     st: explorer.Stats = out["stats"]
     for e in out["errors"]:
         res.harness_errors.append(f"[{part}] {e[:600]}")
-    for od in out.get("order_dependent") or []:
+    # (parts that run against the real OS are not reproducible by construction: no conclusion is drawn there)
+    for od in ([] if real_world else (out.get("order_dependent") or [])):
         cfg = configs[od["cfg_index"]]
         res.add_violation(
             {"class": "behaviour-depends-on-earlier-calls-in-the-process"},
